@@ -28,7 +28,7 @@ TRUSTED = [
     "xxh3 is a parameter: the theorems assume pairwise distinct vnode hashes, the judge checks that on every generated case",
 ]
 RULE = ("ring: 0..6 members x vn 1..4 with generator-chosen hashes (small ranges to force neighbours, 0, 2^64-1, occasional collisions), 1..8 keys, "
-        "optional removal; xring/ch: real xxh3, 1..7 members, vn 1..8 and 150, removal of each index; rr: pools 1..7, counter presets "
+        "optional removal; xring/ch: real xxh3, 1..7 members (and pools of 12..21 with >= 11 vnodes and 150..300 keys), vn 1..8 and 150, removal of each index, second build in reversed member order; rr: pools 1..7, counter presets "
         "0, 2^31, 2^32-3..2^32-1 and random, 1..12 messages, optional stops; fan: pools 1..6 with stops; "
         "non-trivial = at least one lookup/delivery; distinct by (case, output)")
 
@@ -169,6 +169,11 @@ def _py_oracle(case, impl):
         for rd in rounds:
             if " K" not in rd:
                 return "bad unparsable: " + rd[:80]
+            dump = rd.split(" K", 1)[0].split()
+            if len(dump) == 2 and dump[1] != "-":
+                hs = [p.split("=")[0] for p in dump[1].split(",")]
+                if len(set(hs)) != len(hs):
+                    return "bad a ring point belongs to more than one virtual node (vnode keys collide): removing a routee can move keys it did not own"
             ks = rd.split(" K", 1)[1].split()
             cur = {}
             for k in ks:
@@ -337,6 +342,11 @@ def gen_cases(rng, tier):
         nm = rng.randint(1, 7)
         vn = rng.choice([1, 2, 3, 8, 8, 150]) if i % 10 else 150
         cases.append(f"xring {vn} {nm} {rng.randint(1, 12)} s{rng.randrange(10**6)} {rng.choice([-1] + list(range(nm)))}")
+    # larger pools (routee names ...Routee1 / ...Routee1x share prefixes) with at least 11 vnodes each and many keys
+    for i in range(3 if tier == "quick" else 40):
+        nm = rng.choice([12, 13, 14, 21])
+        cases.append(f"xring {rng.choice([11, 12, 20, 150])} {nm} {rng.choice([150, 300])} s{rng.randrange(10**6)} {rng.choice([1, 5, 11, nm - 1])}")
+    cases.append(f"ch 12 {rng.choice([12, 20])} 6 {rng.choice([1, 5, 11])}")
     for _ in range(nch):
         nm = rng.randint(1, 6)
         cases.append(f"ch {nm} {rng.choice([1, 3, 8, 150])} {rng.randint(1, 8)} {rng.choice([-1] + list(range(nm)))}")
